@@ -305,6 +305,7 @@ func depsStream(c *Ctx) {
 		stuck := false
 		lastArr := int64(-1)
 		idleSince := time.Now()
+		idleIters := 0
 		for finished < nroots {
 			select {
 			case <-done:
@@ -323,10 +324,14 @@ func depsStream(c *Ctx) {
 			if arr != lastArr {
 				lastArr = arr
 				idleSince = time.Now()
+				idleIters = 0
 				continue // still moving: let it settle
 			}
+			idleIters++
 			if len(ids) == 0 {
-				if time.Since(idleSince) > 5*time.Second {
+				// nobody waits at a gate and nothing moves: a deadlock in the implementation — but only if this controller
+				// itself got enough turns meanwhile (on a starved machine the bodies are as slow as we are)
+				if time.Since(idleSince) > 5*time.Second && idleIters >= 1500 {
 					stuck = true
 					break
 				}
